@@ -1,6 +1,7 @@
 """Prototype (throw-away) of the C14 cascade reference evaluator + generator.
 usage: q14.py SEED NCASES
 """
+import os; os.makedirs("/tmp/probe", exist_ok=True)
 import io
 import math
 import random
